@@ -55,9 +55,10 @@ func genC19(r *Rand, tier string, ord int) *Trial {
 	base := P0()
 	base.Explicit = true
 	t.Runs = []RunCfg{base}
+	saveTap := tapEnabled
 	tapEnabled = false
 	res := Exec(&t.Case, &t.Runs[0])
-	tapEnabled = true
+	tapEnabled = saveTap
 	if res.Out.Kind != simrt.Returned || res.Err != nil {
 		// not C19's business; Check will discard
 		return t
